@@ -10,12 +10,12 @@ REQUIRED_THEOREMS = ['Props.C16.im2col_variants_agree', 'Props.C16.col2im_varian
                      'Props.C16.fold_unfold_coverage']
 RULE = ('large inputs (more than 2^20 column entries, batch 3..11) on the implementation side: the three variants against the window definition (torch unfold) and the adjoint identity; a few geometries with one axis of extent 253..300 (where narrow index types would wrap); geometry grid: N, C in 1..2, H, W in 1..6, kernel 1..3, stride 1..3, dilation 1..2, padding 0..d(k-1)/2+1 per axis independently '
         '(non-square, stride > kernel, windows that do not tile), int and tuple kernel sizes, both layouts (N x CkHkW x L and the 2-D '
-        'column matrix), arbitrary pad values, integer-valued data so equality is exact; half of the calls of the index-based variants use an index triple obtained with return_indices=True that has already been through col2im and im2col (col_indices=); four in ten calls are the second call on the same array object after it was overwritten in place (a re-used buffer); every input array is handed over in one of the memory layouts C, Fortran, strided view, negative-stride view, window into a larger buffer; each of the three im2col and three col2im '
+        'column matrix), pad_value of every numeric type and spelling (Python int / float / bool, NumPy int8..int64 / uint8 / float16..float64, signed zero, fractions, +-inf) also with padding 0, data with fractional parts (multiples of 1/8, so equality stays exact) or integer-valued, float64 and float32 arrays, the dtype of every result = the dtype of its input; half of the calls of the index-based variants use an index triple obtained with return_indices=True that has already been through col2im and im2col (col_indices=); four in ten calls are the second call on the same array object after it was overwritten in place (a re-used buffer); every input array is handed over in one of the memory layouts C, Fortran, strided view, negative-stride view, window into a larger buffer; each of the three im2col and three col2im '
         'implementations and extract/place_windows is compared with its own model definition, ~8 % geometries without a window '
         '(must raise). Extra implementation-side checks: the three variants agree bit for bit, <im2col x, y> = <x, col2im y>, '
         'fold(unfold(ones)) = coverage counts. Non-trivial: at least 2 windows and an overlapping or dilated geometry.')
 EXHAUSTIVE = {'quick': False, 'thorough': False}
-ASSUMPTIONS = ['integer-valued float64 data']
+ASSUMPTIONS = ['float64 / float32 data that are multiples of 1/8 (all sums exact); pad values finite or +-inf (no NaN)']
 TRUSTED_BASE = ['harness/props/c16.py']
 
 
@@ -85,6 +85,23 @@ def gl(g):
     return f"{g['N']},{g['C']},{g['H']},{g['W']} {show_ints(g['k'])} {show_ints(g['s'])} {show_ints(g['p'])} {show_ints(g['d'])}"
 
 
+# pad_value in every numeric TYPE and spelling a caller may pass (the model reads the value): Python int / float / bool, NumPy integers
+# and floats of several widths, signed zero, fractions, +-inf
+PADS = [('float', 0.0), ('float', 0.0), ('int', 0), ('int', 7), ('int', -3), ('int', 1), ('int', -1), ('float', 7.0), ('float', -3.0), ('float', 1.5),
+        ('float', -0.25), ('float', -0.0), ('bool', True), ('bool', False), ('np.int8', -3), ('np.int16', 7), ('np.int32', 1), ('np.int64', 7),
+        ('np.uint8', 200), ('np.float16', 1.5), ('np.float32', -2.5), ('np.float64', 0.5), ('float', float('inf')), ('float', float('-inf')),
+        ('np.float32', float('-inf')), ('np.float64', float('inf'))]
+DT = {'f64': np.float64, 'f32': np.float32}
+
+
+def typed_pad(c):
+    t, v = c.get('padspec') or ('float', c['pad'])
+    if t == 'float': return float(v)
+    if t == 'int': return int(v)
+    if t == 'bool': return bool(v)
+    return getattr(np, t[3:])(v)
+
+
 def cases(rng, tier):
     out = []
     n = 60 if tier == 'quick' else 2500
@@ -92,11 +109,17 @@ def cases(rng, tier):
     for it_ in range(n + nbig):
         malformed = rng.chance(.08) if it_ < n else False
         g = geom(rng, malformed) if it_ < n else big_geom(rng)
-        x = [float(rng.randint(-9, 9)) for _ in range(g['N'] * g['C'] * g['H'] * g['W'])]
-        pad = float(rng.pick([0, 0, 0, 7, -3]))
+        # data with fractional parts (multiples of 1/8, exact in float32 and under the sums of col2im) seven times out of ten
+        frac = rng.chance(.7)
+        q = (lambda: rng.randint(-72, 72) / 8) if frac else (lambda: float(rng.randint(-9, 9)))
+        x = [q() for _ in range(g['N'] * g['C'] * g['H'] * g['W'])]
+        padspec = rng.pick(PADS)
+        pad = float(padspec[1])
+        dt = rng.pick(['f64', 'f64', 'f32'])
+        first = len(out)
         lh, lw = out_size(g)
         R, L = g['C'] * g['k'][0] * g['k'][1], max(lh * lw, 0)
-        y = [float(rng.randint(-9, 9)) for _ in range(g['N'] * R * L)]
+        y = [q() for _ in range(g['N'] * R * L)]
         for variant in ('idx', 'loop', 'view'):
             unf = rng.chance(.5)
             out.append({'fn': 'im2col', 'variant': variant, 'g': g, 'x': x, 'pad': pad, 'unf': unf, 'malformed': malformed,
@@ -109,10 +132,12 @@ def cases(rng, tier):
                         'lines': [f"conv col2im {variant} {gl(g)} {int(fold)} {show_ints(csh)} {show_floats(y)}"]})
         out.append({'fn': 'extract', 'g': g, 'x': x, 'pad': pad, 'malformed': malformed, 'lines': [f"conv extract {gl(g)} {fbits(pad)} {show_floats(x)}"]})
         wsh = (lh, lw, g['N'], g['C'], g['k'][0], g['k'][1])
-        wv = [float(rng.randint(-9, 9)) for _ in range(max(int(np.prod(wsh)), 0))]
+        wv = [q() for _ in range(max(int(np.prod(wsh)), 0))]
         if not malformed:     # place_windows without windows is outside the property (it answers zeros)
           out.append({'fn': 'place', 'g': g, 'w': wv, 'wsh': wsh, 'malformed': malformed, 'lines': [f"conv place {gl(g)} {show_ints(wsh)} {show_floats(wv)}"]})
         out.append({'fn': 'relations', 'g': g, 'x': x, 'y': y, 'pad': pad, 'malformed': malformed, 'lines': [f"conv im2col spec {gl(g)} {fbits(0.0)} 1 {show_floats(x)}"]})
+        for c in out[first:]:
+            c['padspec'], c['dt'], c['frac'] = list(padspec), dt, frac
     for k_ in (rng.sample(range(len(BIG)), 2) if tier == 'quick' else range(len(BIG))):
         out.append({'fn': 'bigrel', 'big': k_, 'seed': rng.randrange(2 ** 31), 'malformed': False, 'g': {'N': 1, 'C': 1, 'H': 1, 'W': 1, 'k': (1, 1), 's': (1, 1), 'p': (0, 0), 'd': (1, 1)},
                     'x': [1.0], 'lines': [f"conv im2col spec 1,1,1,1 1,1 1,1 0,0 1,1 {fbits(0.0)} 1 {show_floats([1.0])}"]})
@@ -120,7 +145,7 @@ def cases(rng, tier):
         c['layout'] = rng.pick(LAYOUTS)
         c['reuse'] = rng.chance(.4)
         c['share_idx'] = rng.chance(.5) and not c.get('malformed')
-        c['desc'] = f"layout={c['layout']} reuse={int(c['reuse'])} share_idx={int(c['share_idx'])} " + c['lines'][0][:400]
+        c['desc'] = f"layout={c['layout']} reuse={int(c['reuse'])} share_idx={int(c['share_idx'])} pad_value={c.get('padspec')} dtype={c.get('dt')} " + c['lines'][0][:400]
     return out
 
 
@@ -145,13 +170,13 @@ def lay(a, layout):
     if layout == 'F':
         return np.asfortranarray(a)
     if layout == 'strided' and a.ndim:                       # every second element of a twice-as-long last axis
-        big = np.full(a.shape[:-1] + (2 * a.shape[-1],), 55.0)
+        big = np.full(a.shape[:-1] + (2 * a.shape[-1],), 55.0, dtype=a.dtype)
         big[..., ::2] = a
         return big[..., ::2]
     if layout == 'reversed' and a.ndim:                      # negative stride on the last axis
         return np.ascontiguousarray(a[..., ::-1])[..., ::-1]
     if layout == 'offset' and a.ndim:                        # a window into a larger buffer
-        big = np.full(tuple(n + 2 for n in a.shape), -77.0)
+        big = np.full(tuple(n + 2 for n in a.shape), -77.0, dtype=a.dtype)
         sl = tuple(slice(1, n + 1) for n in a.shape)
         big[sl] = a
         return big[sl]
@@ -165,6 +190,8 @@ def _run(c):
     shape = (g['N'], g['C'], g['H'], g['W'])
     int_k = (sum(g['k']) + g['H']) % 2 == 0          # exercise the documented int kernel_size
     k, d, s, p = _args(g, int_k)
+    dtp = DT[c.get('dt', 'f64')]
+    pad = typed_pad(c) if 'pad' in c else None
     def twice(call, a):
         """a re-used buffer: the SAME array object first holds other values and goes through the same call, is then overwritten in
         place with the case's values and goes through the call again; the second answer is the one that counts"""
@@ -192,32 +219,35 @@ def _run(c):
             raise AssertionError('the index triple handed to col2im / im2col was modified')
         return idx
     if c['fn'] == 'im2col':
-        x = lay(np.array(c['x']).reshape(shape), L)
+        x = lay(np.array(c['x'], dtype=dtp).reshape(shape), L)
         f = {'idx': ct.im2col, 'loop': ct.im2col_v2, 'view': ct.im2col_fast}[c['variant']]
         if c['variant'] == 'idx' and c.get('share_idx'):
             idx = shared_indices()
-            return twice(lambda a: f(a, k, d, s, p, c['pad'], col_indices=idx, as_unfold=c['unf']), x)
-        return twice(lambda a: f(a, k, d, s, p, c['pad'], as_unfold=c['unf']), x)
+            return twice(lambda a: f(a, k, d, s, p, pad, col_indices=idx, as_unfold=c['unf']), x)
+        return twice(lambda a: f(a, k, d, s, p, pad, as_unfold=c['unf']), x)
     if c['fn'] == 'col2im':
-        y = lay(np.array(c['y']).reshape(c['csh']), L)
+        y = lay(np.array(c['y'], dtype=dtp).reshape(c['csh']), L)
         f = {'idx': ct.col2im, 'loop': ct.col2im_v2, 'view': ct.col2im_fast}[c['variant']]
         if c['variant'] == 'idx' and c.get('share_idx'):
             idx = shared_indices()
             return twice(lambda a: f(a, shape, k, d, s, p, col_indices=idx), y)
         return twice(lambda a: f(a, shape, k, d, s, p), y)
     if c['fn'] == 'extract':
-        return twice(lambda a: ct.extract_windows(a, g['k'], g['s'], g['p'], g['d'], c['pad']), lay(np.array(c['x']).reshape(shape), L))
+        return twice(lambda a: ct.extract_windows(a, g['k'], g['s'], g['p'], g['d'], pad), lay(np.array(c['x'], dtype=dtp).reshape(shape), L))
     if c['fn'] == 'place':
-        return twice(lambda a: ct.place_windows(a, shape, g['k'], g['s'], g['p'], g['d']), lay(np.array(c['w']).reshape(c['wsh']), L))
+        return twice(lambda a: ct.place_windows(a, shape, g['k'], g['s'], g['p'], g['d']), lay(np.array(c['w'], dtype=dtp).reshape(c['wsh']), L))
     # relations: spec line answered by im2col_fast with zero padding; extra checks in compare
-    return ct.im2col_fast(lay(np.array(c['x']).reshape(shape), L), g['k'], g['d'], g['s'], g['p'], 0.0, as_unfold=True)
+    return ct.im2col_fast(lay(np.array(c['x'], dtype=dtp).reshape(shape), L), g['k'], g['d'], g['s'], g['p'], 0.0, as_unfold=True)
 
 
 def impl(c):
     r = outcome(lambda: _run(c))
     if isinstance(r, str):
         return [r]
-    return [tprog.show_arr(np.asarray(r))]
+    r = np.asarray(r)
+    if c['fn'] != 'bigrel' and r.dtype != np.dtype(DT[c.get('dt', 'f64')]):      # every variant answers in the dtype of its input array
+        return [f"dtype={r.dtype} " + tprog.show_arr(r)]
+    return [tprog.show_arr(r)]
 
 
 def _relations(c):
@@ -225,19 +255,30 @@ def _relations(c):
     ct = _ct()
     g = c['g']
     shape = (g['N'], g['C'], g['H'], g['W'])
-    x = lay(np.array(c['x']).reshape(shape), c.get('layout', 'C'))
+    dtp = DT[c.get('dt', 'f64')]
+    x = lay(np.array(c['x'], dtype=dtp).reshape(shape), c.get('layout', 'C'))
     k, d, s, p = g['k'], g['d'], g['s'], g['p']
+    pad = typed_pad(c)
     for unf in (True, False):
-        a = [f(x, k, d, s, p, c['pad'], as_unfold=unf) for f in (ct.im2col, ct.im2col_v2, ct.im2col_fast)]
+        a = [f(x, k, d, s, p, pad, as_unfold=unf) for f in (ct.im2col, ct.im2col_v2, ct.im2col_fast)]
         if not (np.array_equal(a[0], a[1]) and np.array_equal(a[0], a[2])):
-            return f'the three im2col implementations differ (as_unfold={unf})'
+            return f'the three im2col implementations differ (as_unfold={unf}, pad_value={pad!r} of type {type(pad).__name__}, data dtype {x.dtype})'
+        if len({v.dtype for v in a} | {x.dtype}) != 1:
+            return f'im2col result dtypes {[str(v.dtype) for v in a]} for input dtype {x.dtype} (pad_value={pad!r} of type {type(pad).__name__})'
+    w = ct.extract_windows(x, k, s, p, d, pad)
+    lh_, lw_ = out_size(g)
+    if w.dtype != x.dtype or not np.array_equal(w.transpose(2, 3, 4, 5, 0, 1).reshape(g['N'], g['C'] * k[0] * k[1], lh_ * lw_), ct.im2col_fast(x, k, d, s, p, pad, as_unfold=True)):
+        return f'extract_windows disagrees with im2col_fast (pad_value={pad!r} of type {type(pad).__name__}, data dtype {x.dtype})'
     u = ct.im2col_fast(x, k, d, s, p, 0.0, as_unfold=True)
-    y = lay(np.array(c['y']).reshape(u.shape), c.get('layout', 'C'))
+    y = lay(np.array(c['y'], dtype=dtp).reshape(u.shape), c.get('layout', 'C'))
     b = [f(y, shape, k, d, s, p) for f in (ct.col2im, ct.col2im_v2, ct.col2im_fast)]
     if not (np.array_equal(b[0], b[1]) and np.array_equal(b[0], b[2])):
         return 'the three col2im implementations differ'
-    if float((u * y).sum()) != float((x * b[0]).sum()):
-        return f'<im2col x, y> = {float((u * y).sum())} but <x, col2im y> = {float((x * b[0]).sum())}'
+    if len({v.dtype for v in b} | {y.dtype}) != 1:
+        return f'col2im result dtypes {[str(v.dtype) for v in b]} for input dtype {y.dtype}'
+    ip = lambda p_, q_: float((np.asarray(p_, dtype=np.float64) * np.asarray(q_, dtype=np.float64)).sum())       # (the inner products in binary64: exact on these data)
+    if ip(u, y) != ip(x, b[0]):
+        return f'<im2col x, y> = {ip(u, y)} but <x, col2im y> = {ip(x, b[0])}'
     ones = np.ones(shape)
     cover = ct.col2im_fast(ct.im2col_fast(ones, k, d, s, p, 0.0, as_unfold=True), shape, k, d, s, p)
     lh, lw = out_size(g)
@@ -279,6 +320,13 @@ def distribution(cases):
         d[k] = d.get(k, 0) + 1
     d['malformed'] = sum(1 for c in cases if c['malformed'])
     for c in cases:
+        if c.get('padspec') and 'pad' in c:
+            t, v = c['padspec']
+            k = f"pad_value type {t}" + (' (non-zero)' if v else ' (zero)')
+            d[k] = d.get(k, 0) + 1
+            if c.get('frac') and v and t not in ('float', 'np.float16', 'np.float32', 'np.float64'): d['integer-typed non-zero pad_value over data with fractional parts'] = d.get('integer-typed non-zero pad_value over data with fractional parts', 0) + 1
+        if 'dt' in c: d['data dtype ' + c['dt'] + (', fractional' if c.get('frac') else ', integer-valued')] = d.get('data dtype ' + c['dt'] + (', fractional' if c.get('frac') else ', integer-valued'), 0) + 1
+    for c in cases:
         d['layout:' + c.get('layout', 'C')] = d.get('layout:' + c.get('layout', 'C'), 0) + 1
     return d
 
@@ -297,12 +345,20 @@ def oracle(c):
         return {'key': dict(key, cls='rejected'), 'case': cc, 'what': f"{c['fn']} {c.get('variant', '')} raised on a geometry with {lh}x{lw} windows"} if legal else None
     if not legal:
         return {'key': dict(key, cls='accepted'), 'case': cc, 'what': 'a geometry without any window was answered'}
+    want_dt = np.dtype(DT[c.get('dt', 'f64')])
+    if c['fn'] in ('im2col', 'col2im', 'extract', 'place') and np.asarray(r).dtype != want_dt:
+        return {'key': dict(key, cls='dtype'), 'case': cc, 'what': f"{c['fn']}[{c.get('variant', '')}] answers dtype {np.asarray(r).dtype} for an input of dtype {want_dt} (pad_value {c.get('padspec')})"}
+    if c['fn'] == 'extract':
+        xp = F.pad(torch.tensor(np.array(c['x']).reshape(shape)), (g['p'][1], g['p'][1], g['p'][0], g['p'][0]), value=c['pad'])
+        ref = F.unfold(xp, g['k'], g['d'], 0, g['s']).numpy().reshape(g['N'], g['C'], g['k'][0], g['k'][1], lh, lw).transpose(4, 5, 0, 1, 2, 3)
+        if r.shape != ref.shape or not np.array_equal(r, ref):
+            return {'key': dict(key, cls='value'), 'case': cc, 'what': f"extract_windows differs from the window definition (torch unfold) with pad_value {c.get('padspec')} on {want_dt} data"}
     if c['fn'] == 'im2col':
         xp = F.pad(torch.tensor(np.array(c['x']).reshape(shape)), (g['p'][1], g['p'][1], g['p'][0], g['p'][0]), value=c['pad'])
         ref = F.unfold(xp, g['k'], g['d'], 0, g['s']).numpy()
         if not c['unf']: ref = ref.transpose(1, 2, 0).reshape(ref.shape[1], -1)
         if r.shape != ref.shape or not np.array_equal(r, ref):
-            return {'key': dict(key, cls='value'), 'case': cc, 'what': f"im2col[{c['variant']}] differs from torch.nn.functional.unfold" + (' (second call on the same array object after it was overwritten in place)' if c.get('reuse') else '')}
+            return {'key': dict(key, cls='value'), 'case': cc, 'what': f"im2col[{c['variant']}] with pad_value {c.get('padspec')} on {want_dt} data differs from torch.nn.functional.unfold" + (' (second call on the same array object after it was overwritten in place)' if c.get('reuse') else '')}
     if c['fn'] == 'col2im':
         y = np.array(c['y']).reshape(c['csh'])
         y3 = y if c['fold'] else y.reshape(y.shape[0], -1, g['N']).transpose(2, 0, 1)
